@@ -4,7 +4,8 @@ Each entry: name -> builder(rng, variant) returning (callable, args tuple, kwarg
 `variant` selects the memory layout / boundary form of the array arguments:
   plain | fortran | view (non-contiguous, negative stride) | readonly | singleton | empty | extreme |
   tview (axes reversed inside a padded parent) | midsingle (a single-element axis that is not trailing, tview layout) |
-  dtype-int64 | dtype-int32 | dtype-float32 | dtype-uint8 (every array argument stored in that dtype)
+  dtype-int64 | dtype-int32 | dtype-float32 | dtype-uint8 (every array argument stored in that dtype) |
+  negstride (negative strides on every axis)
 A builder may raise Skip when a variant makes no sense for the routine.
 All argument objects must be reachable from (args, kwargs) so that they are snapshotted.
 """
@@ -16,7 +17,7 @@ class Skip(Exception):
 
 
 VARIANTS = ["plain", "fortran", "view", "readonly", "singleton", "empty", "extreme", "tview", "midsingle",
-            "dtype-int64", "dtype-int32", "dtype-float32", "dtype-uint8"]
+            "dtype-int64", "dtype-int32", "dtype-float32", "dtype-uint8", "negstride"]
 # layouts whose arrays are views into a larger padded parent buffer: the worker calls these twice with
 # different padding values (results must not depend on the padding = no reads outside the view) and checks
 # that the padding is intact afterwards (no writes outside the view)
@@ -46,6 +47,11 @@ def lay(a, variant):
             return (np.abs(a) if dt.kind == "u" and a.dtype != np.bool_ else a).astype(dt)
     if variant == "fortran":
         return np.asfortranarray(a)
+    if variant == "negstride":              # same values seen through negative strides on every axis
+        if a.ndim == 0:
+            return a
+        rev = tuple(slice(None, None, -1) for _ in a.shape)
+        return np.ascontiguousarray(a[rev])[rev]
     if variant == "view":
         fv = _fill_value(a.dtype, FILL[0])
         big = np.full(tuple(2 * s for s in a.shape), fv, dtype=a.dtype)
